@@ -73,6 +73,44 @@ func vary(rt *rapid.T, label string, s []byte, sameLen, eqBytes bool) []byte {
 		if !sameLen && !eqBytes {
 			m = rapid.IntRange(1, n+3).Draw(rt, label+"_len")
 		}
+		if n > 64 && eqBytes {
+			// long run, byte-length preserving: a fixed class-preserving
+			// substitution shifted by one drawn offset (no draw per rune)
+			shift := rapid.IntRange(0, 6).Draw(rt, label+"_vshift")
+			for k := 0; k < n; k++ {
+				switch lens[k] {
+				case 1:
+					if s[i] >= utf8.RuneSelf {
+						out = append(out, []byte{0xE2, 0x80, 0xB9, 0xBA, 0xC3, 0xFF}[(shift+k)%6])
+					} else {
+						out = append(out, string(vary1[(shift+k)%len(vary1)])...)
+					}
+				case 2:
+					out = append(out, string(vary2[(shift+k)%len(vary2)])...)
+				case 3:
+					if markerAt(s, i) != 0 {
+						out = append(out, string([]rune{'‹', '›'}[(shift+k)%2])...)
+					} else {
+						out = append(out, string([]rune{'世', '界', '€'}[(shift+k)%3])...)
+					}
+				default:
+					out = append(out, string(vary4[(shift+k)%len(vary4)])...)
+				}
+				i += lens[k]
+			}
+			i = j
+			continue
+		}
+		if n > 64 && !eqBytes {
+			// long run: one drawn rune repeated (a draw per rune would
+			// dominate the cost of the case)
+			r := varyRunes[rapid.IntRange(0, len(varyRunes)-1).Draw(rt, label+"_vlong")]
+			for k := 0; k < m; k++ {
+				out = append(out, string(r)...)
+			}
+			i = j
+			continue
+		}
 		for k := 0; k < m; k++ {
 			var r rune
 			if eqBytes {
@@ -112,6 +150,15 @@ func vary(rt *rapid.T, label string, s []byte, sameLen, eqBytes bool) []byte {
 // leafS makes a string-content leaf; pub = content is public (shared).
 func (c *valConfig) leafS(rt *rapid.T, kind string, pub bool, eqBytes bool) *Val {
 	v := &Val{K: kind, S: c.payload(rt, "s")}
+	if eqBytes && len(v.S) > 1500 {
+		// byte slices are printed element by element under most verbs (20+
+		// output bytes per element): keep them moderately long
+		n := 1500
+		for n > 0 && !utf8.RuneStart(v.S[n]) {
+			n--
+		}
+		v.S = v.S[:n]
+	}
 	if c.two && !pub {
 		v.T = vary(rt, "t", v.S, c.sameLen, eqBytes)
 		v.HasT = true
@@ -166,7 +213,7 @@ func pick(rt *rapid.T, label string, xs []string) string {
 // bad verb / as an unexported field).
 var pointerKinds = map[string]bool{"pstr": true, "pint": true, "chan": true, "func": true, "uptr": true, "pislice": true, "pmsi": true,
 	"pstructA": true, "pstructB": true, "structC": true, "pstringer": true, "perr": true, "stderr": true, "errwrap": true, "fmter": true,
-	"errfmter": true, "psafefmt": true, "errsafefmt": true, "psb": true, "pstringer!": true, "perr!": true, "rv": true}
+	"errfmter": true, "psafefmt": true, "errsafefmt": true, "psb": true, "pstringer!": true, "perr!": true, "rv": true, "rvfield": true, "rvfieldr": true}
 
 // pickK picks a kind, avoiding pointer kinds if the configuration says so.
 // errorKinds implement error.
@@ -398,6 +445,12 @@ func (c *valConfig) genVal(rt *rapid.T, depth int, pub bool) *Val {
 	case "rv":
 		if rapid.IntRange(0, 6).Draw(rt, "rvz") == 0 {
 			return &Val{K: "rvzero"}
+		}
+		if rapid.IntRange(0, 3).Draw(rt, "rvf") == 0 {
+			if !c.fmtCompat && !c.noRedactable && rapid.Bool().Draw(rt, "rvfr") {
+				return &Val{K: "rvfieldr", Sub: []*Val{{K: "rs", Pr: c.genPrintSpec(rt, depth+1, pub)}}}
+			}
+			return &Val{K: "rvfield", Sub: []*Val{c.genVal(rt, depth+1, pub)}}
 		}
 		return &Val{K: "rv", Sub: []*Val{c.genVal(rt, depth+1, pub)}}
 	case "container":
